@@ -69,7 +69,8 @@ def run(ctx, rep):
         for d in defs:
             c = cond_names(Q.dominating_conditions(g, d, dom))
             if c.get(key) is False:
-                okc = isinstance(d.ast.value, ast.Constant) and isinstance(d.ast.value.value, str)
+                okc = (isinstance(d.ast.value, ast.Constant) and isinstance(d.ast.value.value, str)) or (
+                    isinstance(d.ast.value, (ast.Name, ast.Attribute)) and isinstance(ctx.try_fold(d.ast.value, fd.module), str))
                 rep.ob("R09.1", "vinegar.dump: with %s off a constant placeholder is sent" % key, okc,
                        "`%s`" % A.norm(d.ast) if okc else "the denied branch sends `%s`" % A.src(d.ast.value), ctx.loc(d))
     # R09.2
@@ -102,6 +103,9 @@ def run(ctx, rep):
             return True, "%s(...)" % A.call_name(e)
         if isinstance(e, ast.Attribute) and A.src(e) == "version.version_string":
             return True, "version string"
+        if isinstance(e, (ast.Name, ast.Attribute)) and isinstance(ctx.try_fold(e, fd.module), (str, int, bytes, bool, float, type(None))) \
+                and (not isinstance(e, ast.Name) or e.id not in A.names_stored(fd.node) | set(A.params(fd.node))):
+            return True, "module constant"
         if isinstance(e, ast.Tuple):
             why = []
             for x in e.elts:
